@@ -84,8 +84,11 @@ def programs(draw, kinds=KINDS, force_with=True):
     # locals that have nothing to do with any manager but are awkward to look at: a dead weakref proxy, a lazy object whose
     # __class__ is computed (and logs the computation as an event of the program), a bound method of a nameless callable
     odd_locals = draw(st.sampled_from([False, False, False, True]))
+    # the function has an integer literal among its constants that is too long to be turned into a decimal string (a hex
+    # literal of 6000 digits: legal source, beyond sys.get_int_max_str_digits())
+    big_const = draw(st.sampled_from([False] * 11 + [True]))
     return finish({"kind": kind, "body": body, "conds": conds, "sched": sched, "extarg": extarg, "closure": closure,
-                   "odd_locals": odd_locals})
+                   "odd_locals": odd_locals, "big_const": big_const})
 
 
 def _has_with(stmts):
@@ -227,6 +230,8 @@ def features(prog):
     walk(prog["body"], False)
     if prog.get("odd_locals"):
         f.add("odd_locals")
+    if prog.get("big_const"):
+        f.add("integer_constant_without_decimal_repr")
     if prog.get("closure"):
         f.add("frame_layout.closure_%d" % prog["closure"])
     if prog.get("extarg"):
